@@ -118,6 +118,9 @@ def judge(ctx, ast, sp, T, vi, v):
         entries.append(('Cls.from_data', lambda d: T.from_data(d)))
         if isinstance(v, dict) and all(isinstance(k, str) and k.isidentifier() for k in v):
             entries.append(('Cls(**kw)', lambda d: T(**d)))
+            if set(v) <= {f.name for f in T.__pane_info__.fields}:
+                # the unchecked constructor takes a (possibly partial) mapping of field values: it must not write into it
+                entries.append(('Cls.from_dict_unchecked', lambda d: T.from_dict_unchecked(d)))
         elif isinstance(v, (list, tuple)):
             entries.append(('Cls(*args)', lambda d: T(*d)))
     first = None
